@@ -10,8 +10,8 @@ SPEC = {
         "one case = one seeded history on one table (initial states and mutations as C01) in which ~45% of the steps are "
         "probes: a getter (get_cell, get_row, get_cells, get_rows, traverse, rows, cells, get_column(s), columns, "
         "traverse_columns, get_column_cells, Row.get_cell/traverse/cells/get_cells, get_value) is called with seeded "
-        "coordinates/ranges in, at and beyond the edges; returned objects are checked for the coordinates they were read "
-        "from and for absence of a repeat count where the read expands repetitions; then ONE returned object is mutated "
+        "coordinates/ranges in, at and beyond the edges (tuple, 'C4' and negative count-from-the-end forms); returned objects are checked for the coordinates they were read "
+        "from, for holding the value / style an independent reader finds there, and for absence of a repeat count where the read expands repetitions; then ONE returned object is mutated "
         "(set_value / style / repeated / clear / append_cell) and, for getters documented as returning copies, the table "
         "serialisation and every other returned object must be unchanged; reads outside the populated area must return "
         "empty objects without raising or growing the table. distinct = distinct run digest. non-trivial = >= 2 "
